@@ -25,7 +25,9 @@ OUT = os.path.join(os.path.dirname(os.path.abspath(__file__)), "..", "coq", "Ste
 
 CONSTS = {"SESSION_KEY_LENGTH": ("session_key_length", "u8"), "PROOF_LENGTH": ("proof_length", "u8"),
           "PUBLIC_KEY_LENGTH": ("public_key_length", "u8"), "LARGE_SAFE_PRIME_LITTLE_ENDIAN": ("n_le", ("arr", "u8"))}
-ENUMS = {"InvalidPublicKeyError::PublicKeyIsZero": "PublicKeyIsZero",
+CTORS = {"NormalizedStringError::CharacterNotAllowed": "CharacterNotAllowed"}
+STRUCTS_FN = {"NormalizedString": ["s", "length"]}
+ENUMS = {"NormalizedStringError::StringTooLong": "StringTooLong","InvalidPublicKeyError::PublicKeyIsZero": "PublicKeyIsZero",
          "InvalidPublicKeyError::PublicKeyModLargeSafePrimeIsZero": "PublicKeyModLargeSafePrimeIsZero"}
 
 TARGETS = [
@@ -39,6 +41,8 @@ TARGETS = [
          fields=[("encrypt", "opaque"), ("server_header", ("arr", "u8"))], helpers=[], free_helpers=["set_large_header"],
          externs={"self.encrypt": ("ext_apply", "self.encrypt")}, ret=("arr", "u8"), consts={"SERVER_HEADER_MINIMUM_LENGTH": ("wrath_server_header_min_length", "u8")}),
     dict(name="key_check_public_key", file="src/key.rs", fn="check_public_key", kind="function", ret="unit + pk_error"),
+    dict(name="normalized_string_new", file="src/normalized_string.rs", fn="inner", kind="function", ret="nstr_view + ns_error",
+         consts={"MAXIMUM_STRING_LENGTH_IN_BYTES": ("max_string_length", "u8")}),
     dict(name="pin_to_bytes", file="src/pin.rs", fn="pin_to_bytes", kind="function", ret=("arr", "u8"),
          consts={"MAX_PIN_LENGTH": ("max_pin_length", "u8")}),
     dict(name="matrix_get_number_at_coordinates", file="src/matrix_card.rs", fn="get_number_at_coordinates", kind="method",
@@ -186,7 +190,7 @@ def function(t, src):
         if mut and isinstance(pt, tuple): muts.append(name)
     consts = dict(CONSTS); consts.update(t.get("consts", {}))
     g = Gen(env, consts)
-    g.enums = dict(ENUMS)
+    g.enums = dict(ENUMS); g.ctor_calls = dict(CTORS); g.structs = dict(STRUCTS_FN)
     blk = Parser(tokenize(body)).block()
     g.usize_vars = usize_variables(blk)
     def final(tail):
@@ -195,7 +199,7 @@ def function(t, src):
     text = g.stmts(blk, final)
     fuel = "(fuel : nat) " if g.uses_fuel else ""
     rty = "list N" if isinstance(t.get("ret"), tuple) else (t["ret"] if isinstance(t.get("ret"), str) and t["ret"] not in BITS else "N")
-    head = "Definition tr_%s %s%s: option (%s) :=\n  %s." % (t["name"], fuel, "".join("(%s : %s) " % (n_, "list N" if isinstance(ty_, tuple) else "N") for n_, ty_ in names), rty, text)
+    head = "Definition tr_%s %s%s: option (%s) :=\n  %s." % (t["name"], fuel, "".join("(%s : %s) " % (n_, "list N" if (isinstance(ty_, tuple) or ty_ == "str") else "N") for n_, ty_ in names), rty, text)
     note = "(* %s fn %s(%s) *)" % (t["file"], t["fn"], ", ".join(n_ for n_, _ in names))
     return note + "\n" + head
 
@@ -247,7 +251,7 @@ def api(t, src):
 
 def main():
     out = ["(* GENERATED by tools/extract_steps.py from the Rust sources under /repo/src. Do not edit. *)",
-           "From Coq Require Import List NArith.", "From WS Require Import lib.Bytes lib.Res lib.Tape lib.StepLoop Consts model.Bigint model.Srp.", "From WS Require Import model.Key.", "From WS Require model.Vanilla model.Tbc model.Wrath model.WorldProof.", "Import ListNotations.", "Local Open Scope N_scope.", ""]
+           "From Coq Require Import List NArith.", "From WS Require Import lib.Bytes lib.Res lib.Tape lib.StepLoop Consts model.Bigint model.Srp.", "From WS Require Import model.Key model.NormalizedString.", "Definition nstr_view : Type := (list N * N)%type.", "From WS Require model.Vanilla model.Tbc model.Wrath model.WorldProof.", "Import ListNotations.", "Local Open Scope N_scope.", ""]
     failed = []
     for t in TARGETS:
         try:
